@@ -364,7 +364,7 @@ def r6_value_kinds(ctx):
     from rules.absint import AEval, C, CF, A, L, I, B as _B
     r = Rule("C07.R6", "each kind of file value becomes its own kind of parsed value: a map is a sub-key group (also an empty one), null is the explicit default",
              "`a key is reported missing / surplus by comparing the key sets`, `an explicit null silences the report`: a `{}` read as null is never compared "
-             "with the default locale's group (no missing keys, no sub-key mismatch); a null read as anything else is reported", floor=6)
+             "with the default locale's group (no missing keys, no sub-key mismatch); a null read as anything else is reported", floor=9)
     ast = ctx.ast
     absint.set_program(ast)
     cbs = {f.name: f for f in ast.fns if f.file.endswith(PVF) and not f.is_test() and f.body is not None and "ParsedValueSeed" in (f.impl_self or "") and "Visitor" in (f.impl_trait or "")}
@@ -391,7 +391,11 @@ def r6_value_kinds(ctx):
              ("visit_bool", "true", _B(True), None, C("Ok", C("Literal", C("Bool", _B(True))))),
              ("visit_i64", "-3", I(-3), None, C("Ok", C("Literal", C("Signed", I(-3))))),
              ("visit_u64", "7", I(7), None, C("Ok", C("Literal", C("Unsigned", I(7))))),
-             ("visit_u64", "0", I(0), None, C("Ok", C("Literal", C("Unsigned", I(0)))))]
+             ("visit_u64", "0", I(0), None, C("Ok", C("Literal", C("Unsigned", I(0))))),
+             # a number written with a fraction or an exponent stays the float it is (3.0 is not 3: it renders through f64's Display)
+             ("visit_f64", "2.5", A("float:2.5"), None, C("Ok", C("Literal", C("Float", A("float:2.5"))))),
+             ("visit_f64", "3.0", A("float:3"), None, C("Ok", C("Literal", C("Float", A("float:3"))))),
+             ("visit_f64", "1e20", A("float:1e20"), None, C("Ok", C("Literal", C("Float", A("float:1e20")))))]
     try:
         for name, label, arg, des, want in table:
             if name not in cbs:
